@@ -7,6 +7,12 @@ def run(R, ctx):
     servesuite.run_serve_suite(R, ctx, "select", (120, 2500),
                                "SELECT arguments: 0 1 2 15 16 -1 x '' '1 ' +1 01 99999999999999999999 with database counts 1, 2, 16.",
                                pubsub=False, damage=False)
+    rule = R.rule
+    servesuite.run_serve_suite(R, ctx, "select-reconnect", (120, 2500),
+                               "The same SELECT-heavy sessions with protocol damage and client closes, every ended connection being replaced by a new "
+                               "one: selection must start at database 0 on every new connection and stay private to it.",
+                               pubsub=False, damage=True, reconnect=True)
+    R.rule = rule + " || " + R.rule
 
 
 def replay(R, payload):
